@@ -17,6 +17,7 @@ import subprocess
 import sys
 import time
 from pathlib import Path
+from collections.abc import Mapping
 from typing import Any, Callable, Iterable, Iterator, Optional
 
 VERIF = Path(__file__).resolve().parent.parent
@@ -68,12 +69,13 @@ def canon(construct: "ast.AST | str") -> str:
 
 
 class Module:
-    def __init__(self, name: str, path: Path, rel: str, text: str):
+    def __init__(self, name: str, path: Path, rel: str, text: str, tree: Optional[ast.Module] = None):
         self.name = name
         self.path = path
         self.rel = rel
         self.text = text
-        self.tree = ast.parse(text, filename=str(path))
+        # `tree` is given for an equivalent view of the module (vlib/views.py): same positions, rewritten statements
+        self.tree = tree if tree is not None else ast.parse(text, filename=str(path))
         self.parent: dict[int, ast.AST] = {}
         self.scope: dict[int, str] = {}
         self.defs: dict[str, ast.AST] = {}  # qualname -> FunctionDef/ClassDef
@@ -171,6 +173,28 @@ def own_nodes(fn: ast.AST, include_nested: bool = False) -> Iterator[ast.AST]:
         stack.extend(ast.iter_child_nodes(n))
 
 
+class _LazyModules(Mapping):  # type: ignore[type-arg]
+    """The modules of a view, rewritten when first asked for (most checks look at a handful of modules)."""
+
+    def __init__(self, names: list[str], build: Callable[[str], "Module"]):
+        self._names = names
+        self._build = build
+        self._made: dict[str, Module] = {}
+
+    def __getitem__(self, name: str) -> "Module":
+        if name not in self._made:
+            if name not in self._names:
+                raise KeyError(name)
+            self._made[name] = self._build(name)
+        return self._made[name]
+
+    def __iter__(self):
+        return iter(self._names)
+
+    def __len__(self) -> int:
+        return len(self._names)
+
+
 class Repo:
     def __init__(self, root: Path | None = None):
         self.root = Path(root or REPO_ROOT)
@@ -211,9 +235,54 @@ class Repo:
 
     @property
     def typed(self) -> "Typed":
+        base = getattr(self, "base", None)
+        if base is not None:  # a view: positions are those of the real sources, so are the typed facts
+            return base.typed
         if self._typed is None:
             self._typed = Typed(self)
         return self._typed
+
+    def view(self, kind: str) -> "Repo":
+        """An equivalent view of the package (vlib/views.py): a Repo whose modules carry behaviour-preserving rewritings
+        of the parsed trees (private helpers inlined, aliases resolved, guard clauses <-> nested ifs, casts and logging
+        dropped).  Nothing is executed; source positions are kept."""
+        from . import views
+
+        cache = self.__dict__.setdefault("_views", {})
+        if kind in cache:
+            return cache[kind]
+        amb = self.__dict__.get("_ambiguous")
+        if amb is None:
+            amb = self.__dict__["_ambiguous"] = views.ambiguous_method_names({n: m.tree for n, m in self.modules.items()})
+        views.UNSTABLE_ATTRS.clear()
+        views.UNSTABLE_ATTRS.update(self.__dict__.setdefault("_unstable", views.unstable_attribute_names({n: m.tree for n, m in self.modules.items()})))
+        v = Repo.__new__(Repo)
+        v.root, v.pkg, v._texts, v._typed = self.root, self.pkg, self._texts, None
+        v.base = self  # type: ignore[attr-defined]
+        v.view_kind = kind  # type: ignore[attr-defined]
+        stats = {"inlined_calls": 0, "modules_rewritten": 0}
+        ext = self.__dict__.get("_private_refs")
+        if ext is None:
+            ext = self.__dict__["_private_refs"] = {}
+            for name, m in self.modules.items():
+                for r_ in views.private_refs(m.tree):
+                    ext.setdefault(r_, set()).add(name)
+        base_modules = self.modules
+
+        def build(name: str) -> Module:
+            m = base_modules[name]
+            try:
+                tree, st = views.transform(m.tree, kind, amb, ext, name)
+            except RecursionError:
+                tree, st = m.tree, {"inlined_calls": 0}
+            stats["inlined_calls"] += st.get("inlined_calls", 0)
+            stats["modules_rewritten"] += 1
+            return Module(m.name, m.path, m.rel, m.text, tree=tree)
+
+        v.modules = _LazyModules(list(base_modules), build)  # type: ignore[assignment]
+        v.view_stats = stats  # type: ignore[attr-defined]
+        cache[kind] = v
+        return v
 
     def n_functions(self) -> int:
         return sum(1 for m in self.modules.values() for _ in m.functions())
@@ -381,6 +450,23 @@ class Report:
         self.analysed_funcs: set[str] = set()
         self.assumptions: list[str] = []
         self.extra: dict[str, Any] = {}
+        # layers (see `layer` below): a check file is a stack of rule layers; an analysis error in one layer is
+        # recorded against the rules of that layer and the other layers still run
+        self._settled: set[str] = set()
+        self.layer_of: dict[str, int] = {}
+        self.layer_errors: dict[int, str] = {}
+        self.n_layers = 0
+        self.fatal: Optional[str] = None
+
+    def _layer_failed(self, msg: str) -> None:
+        self.layer_errors[self.n_layers] = msg
+
+    def _layer_done(self) -> None:
+        for r in self.rules:
+            if r not in self._settled:
+                self.layer_of[r] = self.n_layers
+        self._settled = set(self.rules)
+        self.n_layers += 1
 
     # -- declarations
     def rule(self, rid: str, text: str, floor: int = 1) -> None:
@@ -598,13 +684,91 @@ class Report:
         os.replace(tmp, EVID_DIR / ("%s.json" % self.prop))
 
 
+def layer(rep: Report, f: Callable[[Repo, Report], None], repo: Repo) -> None:
+    """Run the rule layer `f` (an earlier `run` of a check file).  An AnalysisError (a rule lost its anchor) or a crash in
+    it is recorded against the rules that layer had declared; the layers stacked on it still run, so that the loss can be
+    judged rule by rule on the equivalent views of the tree (see run_check)."""
+    try:
+        f(repo, rep)
+    except AnalysisError as e:
+        rep._layer_failed(str(e))
+    except RecursionError:
+        raise
+    except Exception as e:
+        rep._layer_failed("internal error in a rule: %r" % (e,))
+    rep._layer_done()
+
+
+class _ViewResult:
+    def __init__(self, kind: str, rep: Report):
+        self.kind = kind
+        self.rep = rep
+        counts: dict[str, int] = {}
+        for i in rep.instances:
+            if not i.get("vacuous"):
+                counts[i["rule"]] = counts.get(i["rule"], 0) + 1
+        known = rep._known()
+        self.unlisted: dict[str, list[dict]] = {}
+        for f in rep.findings:
+            if not any(Report._match(k, f) for k in known):
+                self.unlisted.setdefault(f["rule"], []).append(f)
+        self.status: dict[str, str] = {}
+        for rid in rep.rules:
+            if rep.layer_of.get(rid) in rep.layer_errors:
+                self.status[rid] = "error"
+            elif self.unlisted.get(rid):
+                self.status[rid] = "violated"
+            elif counts.get(rid, 0) < rep.floors.get(rid, 1):
+                self.status[rid] = "floor"
+            else:
+                self.status[rid] = "ok"
+        self.counts = counts
+        self.clean = rep.fatal is None and not rep.layer_errors and all(v == "ok" for v in self.status.values())
+
+    def satisfies(self, rid: str, v0: "_ViewResult") -> bool:
+        """This view satisfies the rule - and not merely because it no longer shows the construct the rule judges: where
+        the tree as it is has a violated obligation of the rule, the view must show at least as many obligations of it
+        (a rule of the kind "no X where Y" is vacuously happy on a rewriting in which it does not recognise X)."""
+        if self.status.get(rid) != "ok":
+            return False
+        if self is v0 or v0.status.get(rid) != "violated":
+            return True
+        return self.counts.get(rid, 0) >= v0.counts.get(rid, 0)
+
+
+def _run_view(prop: str, tier: str, repo: Repo, fn: Callable[[Repo, Report], None], kind: str) -> _ViewResult:
+    rep = Report(prop, tier, repo)
+    layer(rep, fn, repo)
+    return _ViewResult(kind, rep)
+
+
 def run_check(prop: str, fn: Callable[[Repo, Report], None], tier: str) -> int:
-    """Run one property's rules; map outcomes to the exit-code contract."""
+    """Run one property's rules; map outcomes to the exit-code contract.
+
+    The rules run on the tree as it is.  Only if something is not in order there (a violation that is not a listed
+    finding, a rule that matched fewer constructs than its floor, a rule that lost its anchor) they are run again on
+    equivalent views of the tree (vlib/views.py).  A rule is a sufficient condition for a clause about behaviour, and a
+    view has the behaviour of the tree, so a rule that is satisfied on some view is satisfied; what is reported is what
+    no view satisfies."""
+    slot = _acquire_slot()
     try:
         repo = Repo()
-        rep = Report(prop, tier, repo)
-        fn(repo, rep)
-        return rep.finish()
+        v0 = _run_view(prop, tier, repo, fn, "as-is")
+        if v0.clean or os.environ.get("VERIF_NO_VIEWS"):
+            return _finish_single(v0)
+        from . import views
+
+        results = [v0]
+        for kind in views.KINDS:
+            try:
+                rv = _run_view(prop, tier, repo.view(kind), fn, kind)
+            except RecursionError:
+                continue
+            if rv.rep.fatal is None:
+                results.append(rv)
+            if _failing(results) == ([], []):
+                break
+        return _merge(prop, tier, repo, results).finish()
     except AnalysisError as e:
         print("ANALYSIS-ERROR property=%s %s" % (prop, e))
         return 2
@@ -614,21 +778,154 @@ def run_check(prop: str, fn: Callable[[Repo, Report], None], tier: str) -> int:
         traceback.print_exc()
         print("ANALYSIS-ERROR property=%s internal error: %r" % (prop, e))
         return 2
+    finally:
+        if slot is not None:
+            slot.close()
+
+
+def _acquire_slot():
+    """At most VERIF_SLOTS (default: 1.25 x cores) analyses at a time on this machine, whoever started them: the self-tests
+    and the matrices start many, and each holds the parsed package and the typed facts in memory.  A slot is an flock on a
+    file created on demand under the system temp directory; it is released when the analysis ends (or the process dies)."""
+    import fcntl
+    import tempfile
+
+    try:
+        n = int(os.environ.get("VERIF_SLOTS", "0")) or max(4, int((os.cpu_count() or 4) * 1.25))
+        d = Path(tempfile.gettempdir()) / "verif-slots"
+        d.mkdir(exist_ok=True)
+        t_end = time.time() + 3600
+        while time.time() < t_end:
+            for i in range(n):
+                f = open(d / ("slot%d" % i), "w")
+                try:
+                    fcntl.flock(f, fcntl.LOCK_EX | fcntl.LOCK_NB)
+                    return f
+                except OSError:
+                    f.close()
+            time.sleep(0.5)
+    except Exception:
+        pass
+    return None
+
+
+def _finish_single(v: _ViewResult) -> int:
+    rep = v.rep
+    if rep.fatal:
+        raise AnalysisError(rep.fatal)
+    if rep.layer_errors and not any(v.unlisted.values()):
+        raise AnalysisError("; ".join(rep.layer_errors[k] for k in sorted(rep.layer_errors)))
+    for k in sorted(rep.layer_errors):
+        print("ANALYSIS-WARNING property=%s %s" % (rep.prop, rep.layer_errors[k]))
+    return rep.finish()
+
+
+def _failing(results: list[_ViewResult]) -> tuple[list[str], list[int]]:
+    """(rules no view satisfies, layers that ran to their end in no view)."""
+    rules: list[str] = []
+    for r in results:
+        for rid in r.rep.rules:
+            if rid not in rules:
+                rules.append(rid)
+    bad = [rid for rid in rules if not any(r.satisfies(rid, results[0]) for r in results)]
+    n_layers = max(r.rep.n_layers for r in results)
+    lost = [k for k in range(n_layers) if all(k in r.rep.layer_errors for r in results)]
+    return bad, lost
+
+
+def _merge(prop: str, tier: str, repo: Repo, results: list[_ViewResult]) -> Report:
+    """One report out of the views: every rule is taken from the first view that satisfies it (the tree as it is first);
+    a rule that no view satisfies is taken from the tree as it is if it is violated there, else from the first view that
+    shows a violation."""
+    v0 = results[0]
+    bad, lost = _failing(results)
+    if os.environ.get("VERIF_VIEWS_DEBUG"):
+        for r in results:
+            for k in sorted(r.rep.layer_errors):
+                print("VIEW-DEBUG layer %d of view %s: %s" % (k, r.kind, r.rep.layer_errors[k][:300]))
+        for rid in bad:
+            for r in results:
+                st = r.status.get(rid, "-")
+                why = ""
+                if st == "violated":
+                    f = r.unlisted[rid][0]
+                    why = "%s :: %s -- %s" % (f["function"], f["construct"][:100], f["detail"][:160])
+                elif st == "error":
+                    why = r.rep.layer_errors.get(r.rep.layer_of.get(rid, -1), "")[:260]
+                print("VIEW-DEBUG %s %-9s %-8s %s" % (rid, r.kind, st, why))
+    final = Report(prop, tier, repo)
+    final.t0 = v0.rep.t0
+    used: dict[str, list[str]] = {}
+    errors: list[str] = []
+    order: list[str] = []
+    for r in results:
+        for rid in r.rep.rules:
+            if rid not in order:
+                order.append(rid)
+    for rid in order:
+        src = next((r for r in results if r.satisfies(rid, v0)), None)
+        if src is None:
+            src = next((r for r in results if r.status.get(rid) == "violated"), None)
+        if src is None:
+            src = next((r for r in results if r.status.get(rid) == "floor"), None)
+        if src is None:  # only errors
+            src = next(r for r in results if rid in r.rep.rules)
+            errors.append("%s: %s" % (rid, src.rep.layer_errors.get(src.rep.layer_of.get(rid, -1), "lost its anchor")))
+        final.rules[rid] = src.rep.rules[rid]
+        final.floors[rid] = src.rep.floors[rid]
+        for i in src.rep.instances:
+            if i["rule"] == rid:
+                final.instances.append(i)
+                if not i["ok"]:
+                    final.findings.append(i)
+        if src.kind != "as-is":
+            used.setdefault(src.kind, []).append(rid)
+    for k in lost:
+        errors.append(v0.rep.layer_errors.get(k, "a rule layer could not be analysed on any view"))
+    src0 = next((r for r in results if not r.rep.layer_errors), v0)
+    final.analysed_funcs = set().union(*[r.rep.analysed_funcs for r in results])
+    final.assumptions = list(src0.rep.assumptions)
+    final.extra = dict(src0.rep.extra)
+    final.info = dict(src0.rep.info)
+    final.info["equivalent_views"] = {
+        "why": "the tree as it is did not satisfy every rule; the rules were run again on behaviour-preserving rewritings of it (vlib/views.py)",
+        "views_run": [r.kind for r in results],
+        "rules_satisfied_only_on_a_view": used,
+        "rules_no_view_satisfies": bad,
+    }
+    if errors:
+        known = final._known()
+        if not any(not any(Report._match(k, f) for k in known) for f in final.findings):
+            raise AnalysisError("; ".join(errors))
+        for e in errors:
+            print("ANALYSIS-WARNING property=%s %s" % (prop, e))
+    return final
 
 
 def borrow(repo: "Repo", rep: "Report", own: str, sibling: str, rules: tuple[str, ...]) -> None:
+    """`_borrow` as a rule layer of its own (see `layer`): the rules declared before it are settled first, and a loss of
+    anchor in the sibling's rules is recorded against the borrowed rules only."""
+    rep._layer_done()
+    layer(rep, lambda _repo, _rep: _borrow(_repo, _rep, own, sibling, rules), repo)
+
+
+def _borrow(repo: "Repo", rep: "Report", own: str, sibling: str, rules: tuple[str, ...]) -> None:
     """Run the sibling property's own rules into a scratch report and keep the obligations of `rules` (ids or id prefixes like
     'C11.g') under this property as `<own>.via-<sibling rule id>`.  Instances that are open known findings of the sibling stay there."""
     import importlib
 
     mod = importlib.import_module("checks." + sibling.lower())
     sub = Report(sibling, rep.tier, repo)
-    getattr(mod, "_run_before_borrow", mod.run)(repo, sub)
+    layer(sub, getattr(mod, "_run_before_borrow", mod.run), repo)
     known = sub._known()
+    if sub.layer_errors and not any(any(rid == s_ or rid.startswith(s_ + "-") for s_ in rules) and sub.layer_of.get(rid) not in sub.layer_errors for rid in sub.rules):
+        raise AnalysisError("; ".join(sub.layer_errors[k] for k in sorted(sub.layer_errors)))
     for rid, text in sub.rules.items():
         if not any(rid == s_ or rid.startswith(s_ + "-") for s_ in rules):
             continue
         new = "%s.via-%s" % (own, rid)
+        if sub.layer_of.get(rid) in sub.layer_errors:
+            raise AnalysisError(sub.layer_errors[sub.layer_of[rid]])
         rep.rule(new, "(rule %s of the check for %s, which this property depends on as well) %s" % (rid.split("-")[0], sibling, text), floor=sub.floors.get(rid, 1))
         for inst in sub.instances:
             if inst["rule"] != rid:
